@@ -122,7 +122,7 @@ def run(ctx):
                 'cKDTree.query; (b) real feature arrays (1-4 features, 1-%d rows, K 1-15, bounds inf/1.0/0.3, with exact ties '
                 'and sorted variants) whose real query table is rank-coded for the model; non-trivial = at least two rows compete '
                 'for one candidate in some column' % (40 if ctx.quick() else 200))
-    ctx.proof()
+    ctx.proof(extra=['props/Prop_Tie_Kdt.v'])  # translation tie: program regenerated from the source + refinement theorems
     from emd import cycles
     tabs = gen_tables(ctx, 600 if ctx.quick() else 15000)
     arrs = gen_arrays(ctx, 150 if ctx.quick() else 3000)
